@@ -204,6 +204,37 @@ def cmd_check(args, vx):
         except Exception as e:
             tool_problems.append(f"replay of recorded findings failed: {e!r}"[:400])
 
+    # Kani bounded cross-checks (/verif/kani): always in the thorough tier; in the quick tier only as a stand-in when the
+    # deductive pass could not be applied to the working tree (tool failure) — labelled bounded, never counted as proved
+    kani_results = []
+    want_kani = (tier == "thorough") or (bool(tool_problems) and not violations)
+    if want_kani and os.environ.get("VX_NO_KANI") != "1":
+        try:
+            hs = [h["name"] for h in json.load(open(os.path.join(vx.VERIF, "kani", "harnesses.json"))) if prop in (h.get("property") or h.get("properties") or [])]
+        except Exception:
+            hs = []
+        if hs:
+            cmd = ["python3", os.path.join(vx.VERIF, "kani", "run.py"), "--repo", vx.REPO, "--jobs", "8", "--timeout", os.environ.get("VX_KANI_TIMEOUT", "420")]
+            for h in hs:
+                cmd += ["--harness", h]
+            try:
+                kp = subprocess.run(cmd, capture_output=True, text=True, timeout=3600)
+                for line in kp.stdout.splitlines():
+                    line = line.strip()
+                    if line.startswith("{"):
+                        try:
+                            kani_results.append(json.loads(line))
+                        except Exception:
+                            pass
+            except subprocess.TimeoutExpired:
+                kani_results.append({"harness": "*", "status": "timeout"})
+            for kr in kani_results:
+                if kr.get("status") == "fail":
+                    violations.append({"obligation": f"kani:{kr['harness']}:bounded harness failed ({kr.get('bound', '')[:120]})", "item": f"Kani harness {kr['harness']}",
+                                       "message": f"bounded Kani harness {kr['harness']} fails on the working tree (bounded stand-in, not a proof obligation)",
+                                       "spans": [], "rendered": (kr.get("detail") or "")[-3000:], "tags": [prop], "site": "",
+                                       "trie_input": kr.get("counterexample") or "(see verifier_output: the failed check names the violated oracle clause)", "sample": "kani"})
+
     rc = 0
     os.makedirs(os.path.join(vx.BUILD, "replay"), exist_ok=True)
     out_lines = []
@@ -250,6 +281,7 @@ def cmd_check(args, vx):
             "canaries": {"woven": canaries_total, "failed_as_required": canaries_failed},
             "macro_output_validation": trie_summaries,
             "recorded_inputs_replayed_on_real_code": replayed,
+            "kani_bounded_harnesses": [{k: kr.get(k) for k in ("harness", "status", "seconds", "bound", "complete")} for kr in kani_results],
             "rewrite_log": rewrites,
             "assumption_scan": {k: v for k, v in assumptions_scan.items() if v},
             "not_covered": pc.get("not_covered", []),
